@@ -1462,7 +1462,17 @@ def reassemble(items):
 
 class C09(ParserProp):
     pid = "C09"
-    theorems = [("C09_agree", None)]
+    theorems = [("C09_agree",
+                 "forall (bs : list N) (k : nat), ok_in bs -> match parse bs with "
+                 "| FileOk f => sp_calls k (sp_new bs) = firstn k (map SEvent (flat_map flatten_msg f) ++ repeat SNone k) "
+                 "| FileErr e => exists evs, sp_calls k (sp_new bs) = firstn k (map SEvent evs ++ [SErr e] ++ repeat SNone k) "
+                 "| FilePanic => False end"),
+                ("C09_lists", None)]
+    level_text = ("Theorems C09_agree, C09_lists (Coq, closed): for every input and every number of next() calls, the streaming parser's "
+                  "results are exactly the flattened events of the file the allocating parser returns (then None forever), or - when the "
+                  "allocating parser fails with e - some events followed by exactly the error e; announced list lengths equal the number "
+                  "of value events. Proved by relating both parsers to one message-by-message reading (state machine vs recursive "
+                  "descent). Oracle: real events reassembled vs real complete::parse, same error kind, on corrupted inputs.")
     rule = ("valid files, corruptions / truncations / length manipulations with and without recomputed CRC, real payloads and their "
             "mutations; the streaming events up to the first error are reassembled (Rust vs Rust) and compared with the allocating "
             "parser's file; error iff error, same kind; n announced values -> exactly n value events and one end event. "
@@ -1933,10 +1943,10 @@ class C11(Prop):
         return bad
 
 
-REGISTRY = {"C01": C01, "C02": C02, "C05": C05, "C06": C06, "C07": C07, "C08": C08, "C10": C10, "C11": C11, "C12": C12, "C13": C13, "C14": C14, "C15": C15, "C16": C16, "C17": C17, "C18": C18}
+REGISTRY = {"C01": C01, "C02": C02, "C05": C05, "C06": C06, "C07": C07, "C08": C08, "C09": C09, "C10": C10, "C11": C11, "C12": C12, "C13": C13, "C14": C14, "C15": C15, "C16": C16, "C17": C17, "C18": C18}
 
 NOT_CLAIMED = {}
-for _p in ["C03", "C04", "C09"]:
+for _p in ["C03", "C04"]:
     NOT_CLAIMED[_p] = "check under construction in this revision (model/theorem not yet committed); the technique applies, see DESIGN.md section 5"
 
 
